@@ -106,6 +106,10 @@ for op in OP:
                 props=props, tier='q' if quick else 't', cost=120 if sz in SLOW else 15, inputs=IN_REM)
 
 for op in OP:
+    add('k2_remove', '%s_typed_e8' % op, 'remove_typed::<E8>(%s)' % OP[op], props=['C01', 'C03', 'C05'], tier='q', cost=15, inputs=IN_REM)
+    add('k2_remove', '%s_typed_e12' % op, 'remove_typed::<E12>(%s)' % OP[op], props=['C01'], tier='t', cost=120, inputs=IN_REM)
+add('k2_remove', 'remove_typed_z0', 'remove_typed::<Z0>(OP_REMOVE)', props=['C01', 'C03'], tier='t', cost=10, inputs=IN_REM)
+for op in OP:
     add('k2_remove', '%s_drop_nodrop_e8' % op, 'remove_erased::<E8>(%s, SINK_DROP, false)' % OP[op], props=['C01', 'C03'], tier='q' if op == 'remove' else 't', cost=15, inputs=IN_REM)
 add('k2_remove', 'remove_drop_nodrop_e3', 'remove_erased::<E3>(OP_REMOVE, SINK_DROP, false)', props=['C03'], tier='t', cost=120, inputs=IN_REM)
 
